@@ -359,6 +359,7 @@ func checkC08(c *Ctx) {
 			progs = append(progs, c08Build(seq, "x", fmt.Sprintf("c08/nested4/%d/%s", i, strings.Join(seq, "."))))
 		}
 	}
+	progs = append(progs, c08Extra()...)
 	c.Extra["enumerated_programs"] = len(progs)
 	r := rand.New(rand.NewSource(c.Seed))
 	nr := c.pick(200, 4000)
@@ -382,4 +383,91 @@ func checkC08(c *Ctx) {
 	compareBehaviours(c, b, false, "scoping")
 	p := progs[len(progs)/5]
 	c.sample(map[string]any{"program": p.ID, "source": b.Sources[p.ID], "expected": b.Behs[p.ID][0].Render()})
+}
+
+// c08Extra: hand-built scoping programs. (1) function literals nested one, two and three deep inside a function whose
+// own parameters and locals (some with the literals' parameter names) are read and written after the outermost literal;
+// (2) range statements whose iteration variables have the names of variables that occur in the range operand
+// (for _, xs := range xs; for i := range s[i:]; for _, n := range n.Kids).
+func c08Extra() []*Prog {
+	var progs []*Prog
+	fi := FuncTy(&FuncSig{Params: []*Ty{TInt}, Results: []*Ty{TInt}})
+	for depth := 1; depth <= 3; depth++ {
+		for variant := 0; variant < 3; variant++ {
+			p := &Prog{ID: fmt.Sprintf("c08/lits/depth%d/v%d", depth, variant), Pkg: "main", Main: "Main"}
+			// innermost literal first
+			var mk func(d int) *E
+			mk = func(d int) *E {
+				name := fmt.Sprintf("c08lit%d_%d_%d", depth, variant, d)
+				param := []string{"x", "a", "y"}[(d+variant)%3]
+				pv := v(param, TInt)
+				var body []*S
+				if d < depth {
+					inner := mk(d + 1)
+					ln := "a" // a local of the literal named like a local of the enclosing function
+					if param == "a" {
+						ln = "y"
+					}
+					in := "x" // and one in a nested block
+					if param == "x" {
+						in = "q"
+					}
+					body = []*S{dcl("k", inner), dcl(ln, bin("+", TInt, pv, lit(TInt, int64(d)))),
+						{K: "if", Cond: bin(">", TBool, v(ln, TInt), lit(TInt, -1000)), Then: []*S{dcl(in, bin("*", TInt, v(ln, TInt), lit(TInt, 2))), asg(v(ln, TInt), v(in, TInt))}},
+						ret(bin("+", TInt, &E{K: "callv", Ty: TInt, NRes: 1, X: v("k", fi), Args: []*E{v(ln, TInt)}}, lit(TInt, 1)))}
+				} else {
+					body = []*S{ret(bin("*", TInt, pv, lit(TInt, 3)))}
+				}
+				fn := &Func{Name: name, Params: []string{param}, PTypes: []*Ty{TInt}, Results: []*Ty{TInt}, Body: body}
+				p.Lits = append(p.Lits, fn)
+				return &E{K: "funclit", Ty: fi, Fn: name, Lit: fn}
+			}
+			body := []*S{dcl("a", bin("+", TInt, v("x", TInt), lit(TInt, 1))), dcl("y", lit(TInt, 7))}
+			lit1 := mk(1)
+			switch variant {
+			case 0:
+				body = append(body, dcl("h", lit1))
+			case 1: // the literal is declared inside a nested block of the function
+				body = append(body, &S{K: "declzero", Names: []string{"h"}, DeclTy: fi}, &S{K: "if", Cond: bin(">", TBool, v("a", TInt), lit(TInt, -5)), Then: []*S{dcl("inner", lit(TInt, 1)), asg(v("h", fi), lit1), asg(v("y", TInt), bin("+", TInt, v("y", TInt), v("inner", TInt)))}})
+			default: // inside a loop body
+				body = append(body, &S{K: "declzero", Names: []string{"h"}, DeclTy: fi}, &S{K: "for", Init: dcl("i", lit(TInt, 0)), Cond: bin("<", TBool, v("i", TInt), lit(TInt, 2)), Post: &S{K: "incdec", Lhs: []*E{v("i", TInt)}, D: 1}, Body: []*S{asg(v("h", fi), lit1), asg(v("y", TInt), bin("+", TInt, v("y", TInt), v("i", TInt)))}})
+			}
+			body = append(body,
+				dcl("b", &E{K: "callv", Ty: TInt, NRes: 1, X: v("h", fi), Args: []*E{v("a", TInt)}}),
+				asg(v("a", TInt), bin("+", TInt, v("a", TInt), v("b", TInt))),
+				asg(v("x", TInt), bin("+", TInt, v("x", TInt), lit(TInt, 1))),
+				pr(sS("after"), v("a", TInt), v("b", TInt), v("x", TInt), v("y", TInt)),
+				ret(bin("+", TInt, bin("*", TInt, v("a", TInt), lit(TInt, 100)), v("x", TInt))))
+			p.Globals = []*S{{K: "decl", Names: []string{"a"}, DeclTy: TInt, VarForm: true, Exprs: []*E{lit(TInt, 5000)}, Global: true}}
+			p.Funcs = append(p.Funcs, &Func{Name: "F", Params: []string{"x"}, PTypes: []*Ty{TInt}, Results: []*Ty{TInt}, Body: body},
+				&Func{Name: "Main", Body: []*S{pr(sS("F"), &E{K: "call", Fn: "F", Ty: TInt, NRes: 1, Args: []*E{lit(TInt, 3)}}), pr(sS("global"), &E{K: "var", Ty: TInt, Name: "a", Global: true})}})
+			progs = append(progs, p)
+		}
+	}
+	// range statements whose variables are named like what the operand mentions
+	{
+		ts := SliceOf(TInt)
+		pn := PtrTo("Nd")
+		p := &Prog{ID: "c08/range-self", Pkg: "main", Main: "Main"}
+		p.Structs = []*StructDef{{Name: "Nd", Fields: []string{"V", "Kids"}, FTypes: []*Ty{TInt, SliceOf(pn)}}}
+		p.Globals = []*S{{K: "decl", Names: []string{"gs"}, DeclTy: ts, VarForm: true, Exprs: []*E{{K: "slicelit", Ty: ts, Args: []*E{lit(TInt, 100), lit(TInt, 200)}}}, Global: true}}
+		add := func(name string, e *E) *S { return &S{K: "opassign", Lhs: []*E{v(name, TInt)}, Op: "+", E: e} }
+		kids := &E{K: "slicelit", Ty: SliceOf(pn), Args: []*E{newS("Nd", "V", lit(TInt, 5)), newS("Nd", "V", lit(TInt, 6))}}
+		walk := &Func{Name: "walk", Params: []string{"xs", "n"}, PTypes: []*Ty{ts, pn}, Results: []*Ty{TInt}, Body: []*S{
+			dcl("t", lit(TInt, 0)),
+			{K: "range", X: v("xs", ts), KName: "_", VName: "xs", Body: []*S{add("t", v("xs", TInt))}},
+			pr(sS("r1"), v("t", TInt), lenOf(v("xs", ts))),
+			dcl("i", lit(TInt, 1)),
+			{K: "range", X: &E{K: "slice", Ty: ts, X: v("xs", ts), Lo: v("i", TInt)}, KName: "i", VName: "e", Body: []*S{add("t", bin("+", TInt, bin("*", TInt, v("i", TInt), lit(TInt, 10)), v("e", TInt)))}},
+			pr(sS("r2"), v("t", TInt), v("i", TInt)),
+			{K: "range", X: fld(v("n", pn), "Kids", SliceOf(pn)), KName: "_", VName: "n", Body: []*S{add("t", fld(v("n", pn), "V", TInt))}},
+			pr(sS("r3"), v("t", TInt), fld(v("n", pn), "V", TInt)),
+			{K: "range", X: &E{K: "var", Ty: ts, Name: "gs", Global: true}, KName: "gs", VName: "", Body: []*S{add("t", v("gs", TInt))}},
+			pr(sS("r4"), v("t", TInt), lenOf(&E{K: "var", Ty: ts, Name: "gs", Global: true})),
+			ret(v("t", TInt))}}
+		p.Funcs = append(p.Funcs, walk, &Func{Name: "Main", Body: []*S{
+			pr(sS("walk"), &E{K: "call", Fn: "walk", Ty: TInt, NRes: 1, Args: []*E{{K: "slicelit", Ty: ts, Args: []*E{lit(TInt, 1), lit(TInt, 2), lit(TInt, 3)}}, newS("Nd", "V", lit(TInt, 9), "Kids", kids)}})}})
+		progs = append(progs, p)
+	}
+	return progs
 }
